@@ -4,6 +4,7 @@
 
 #include "inhibit_libcall.h"
 
+inhibit_loop_to_libcall
 void *memset(void *dest, int c, size_t n)
 {
     char *ptr = (char *)dest;
